@@ -56,6 +56,8 @@ var handlerWriter = map[string]string{
 func runC01(c *core.Ctx) {
 	defer func() {
 		c.Share(map[string]string{"R4.11": "R1.15", "R4.12": "R1.16"}, runC04) // flags come back as last written
+		c.Rule("R1.21", "the direct backend handler decodes a get reply as the backend wrote it: flags first then (gete only) the expiry; the expiry is asked for exactly after a gete was written; every hit takes Data, Flags, Exptime from the reply just read", 8)
+		runR121(c, "R1.21")
 		c.Rule("R1.18", "the tiers are wired as the orchestrators assume: the accept loop hands the handler of its first constructor to the orchestrator as L1 and of its second as L2; main passes an L1 constructor built from --l1-sock (or the in-memory backend) and an L2 constructor built from --l2-sock, for both ports", 3)
 		runR118(c, "R1.18")
 		c.Share(map[string]string{"R16.4": "R1.17"}, runC16)
